@@ -3,7 +3,9 @@ import GdVerif.Run.Faults
 import GdVerif.Spec.Gs3Faults
 /-
   Driver entry `gs3plan`: the SPEC's plan script for one fault vector of the C10 check (see `Run/ValveFaults.lean`).
-  `THM 1` = the hypotheses of `C10_gs3_query_faulty` / `C10_gs3_query_vars_faulty` hold.
+  `THM 1` = the hypotheses of `C10_gs3_query_faulty` / `C10_gs3_query_vars_faulty` hold; these are stated over `ConfigX`
+  / `wfX` (replies with any allowed extra field sections, the domain of the decoding theorems), which is what `gen gs3`
+  draws, so every well-formed generated reply is in the domain.
 
   Unit 0: faults at the handshake stage; unit 1: at the data stage, nothing of the reply arrives; unit 2 (replies of two or
   more data packets): at the data stage the reply STOPS HALF WAY — a silent attempt still receives some of the data packets
@@ -33,16 +35,16 @@ def gs3PlanOfVector (r : Nat) (stage : Stage) (unit : Nat) (pool : List Bytes) :
     else (⟨fails, .valid⟩, rest)
 
 /-- deliveries / flags of the left-over letters (positions `i`, `i + 1`, … of the vector) -/
-def gs3Leftover (cfg : Config) (arrival : List Bytes) (stage : Stage) (unit : Nat) :
+def gs3Leftover (cfg : ConfigX) (arrival : List Bytes) (stage : Stage) (unit : Nat) :
     Nat → List Char → List Delivery × List Bool
   | _, [] => ([], [])
   | i, c :: rest =>
     let (d, f) :=
-      if c == 'S' then ((Attempt.mk stage false (gs3Got unit i arrival)).deliveries cfg, (Attempt.mk stage false []).faults)
-      else if c == 'F' then ((Attempt.mk stage true []).deliveries cfg, (Attempt.mk stage true []).faults)
-      else if c == 'M' then ((Ending.malformed stage (gs3Got unit i arrival) malformedDatagram).deliveries cfg arrival,
+      if c == 'S' then ((Attempt.mk stage false (gs3Got unit i arrival)).deliveriesX cfg, (Attempt.mk stage false []).faults)
+      else if c == 'F' then ((Attempt.mk stage true []).deliveriesX cfg, (Attempt.mk stage true []).faults)
+      else if c == 'M' then ((Ending.malformed stage (gs3Got unit i arrival) malformedDatagram).deliveriesX cfg arrival,
         (Ending.malformed stage [] malformedDatagram).faults)
-      else (Ending.valid.deliveries cfg arrival, Ending.valid.faults)
+      else (Ending.valid.deliveriesX cfg arrival, Ending.valid.faults)
     let (d', f') := gs3Leftover cfg arrival stage unit (i + 1) rest
     (d ++ d', f ++ f')
 
@@ -52,24 +54,22 @@ def entryGs3Plan (args : List String) : String :=
   | [seed, k, r, unit, vec] =>
     match seed.toNat?, k.toNat?, r.toNat?, unit.toNat? with
     | some seed, some k, some r, some unit =>
-      -- the generator's replies may carry extra field sections (`ConfigX`); the fault plans only use the challenge
-      -- of the configuration, the packets on the wire are those with the extras
-      let (cfgX, st) := G.run gGs3Case (seed * 1000003 + k)
-      let cfg : Config := cfgX.base
+      -- the generator's replies carry extra field sections (`ConfigX`); plans, scripts and theorems are over `ConfigX`
+      let (cfg, st) := G.run gGs3Case (seed * 1000003 + k)
       let port := 29900 + k % 3
       let vars := k % 4 == 3
       let entry := if vars then "gs3vars" else "gs3"
       let stage : Stage := if unit == 0 then .handshake else .data
-      let arrival := dataPacketsX cfgX st
+      let arrival := dataPacketsX cfg st
       let (plan, left) := gs3PlanOfVector r stage unit arrival vec.toList []
       let (lq, lf) := gs3Leftover cfg arrival stage unit (vec.length - left.length) left
-      -- the whole-query theorem under faults is stated for replies without extra sections
-      let thm := Spec.wf cfg st && (extrasOf cfgX.layout.flatten).isEmpty && wfPlan r (dataPackets cfg st) plan
-      let want := if vars then showRes showMap (faultyPackets cfg st plan >>= buildVars)
+      -- the hypotheses of `C10_gs3_query_faulty` (the arrival order is the order of the ids: a permutation)
+      let thm := Spec.wfX cfg st && wfPlan r (dataPacketsX cfg st) plan
+      let want := if vars then showRes showMap (faultyPacketsX cfg st plan >>= buildVars)
         else showRes showGs3Response (faultyExpected st plan)
-      s!"{entry} {port} {r} {showDeliveries (faultyScript cfg plan arrival ++ lq)} f={showFaults (faultyFaults plan ++ lf)}"
+      s!"{entry} {port} {r} {showDeliveries (faultyScriptX cfg plan arrival ++ lq)} f={showFaults (faultyFaults plan ++ lf)}"
         ++ " ## WANT " ++ want
-        ++ " ## SENT " ++ showSent (faultySends cfg plan)
+        ++ " ## SENT " ++ showSent (faultySendsX cfg plan)
         ++ " ## ATT " ++ toString plan.attempts
         ++ " ## THM " ++ (if thm then "1" else "0")
     | _, _, _, _ => "bad-case"
